@@ -55,6 +55,11 @@ CHECKS = {
    note="Trusted: the no-DCE hook (skips passes 1-4 and appends RET), engine/bcv decoder. Bounded by the family budgets.",
    technique="lock-step bisimulation (explicit product-state search) of optimised vs unoptimised bytecode + differential execution, exhaustive program enumeration",
    engine="bcv", design="4/C03"),
+ "C11": dict(
+   text="Metamorphic exhaustive check: for every base program of a statement family over variables a, b, c, m, arr (definitions, assignments, compound assignments, selector/index assignments through maps and arrays, if/else, for, for-in, closures bound to variables, nested closures, recursion, closures over parameters) the complete set of variants is executed: body moved into a function (globals -> locals), into a source module, into nested functions, each single sub-expression and each single statement wrapped in an immediately-invoked function literal and all at once (locals -> captured variables, free-of-free), consistent renamings; outcome class, output values and the normalised error line of every variant must equal the base program's. Programs in which a closure outlives the loop iteration that declared a captured variable are recognised syntactically and excluded, as the property allows.",
+   note="Trusted: the transformations (checks/c11/transform.go) preserve meaning under the documented scoping rules; the exclusion recogniser. No reference interpreter is needed for the verdict.",
+   technique="bounded exhaustive enumeration of programs x complete variant sets with a metamorphic (differential) oracle",
+   design="4/C11"),
  "C12": dict(
    text="For every program of the consts family (all sequences of <=N snippets producing duplicate constants of each de-duplicable type across main/functions/closures/source modules/builtin modules, plus failing statements) and of the cflow/func families: original bytecode vs RemoveDuplicates vs gob Encode/Decode (of both) are all executed on fresh VMs and compared on globals and full error text incl. positions; transformed bytecode passes the C02 structural exploration; no equal de-duplicable constants remain.",
    note="Trusted: engine/bcv, harness snapshot. CLI file handling (cmd/tengo) itself is not driven, only Bytecode.Encode/Decode which it calls.",
